@@ -18,11 +18,13 @@ import PyomaVerif.Ops.C07
 import PyomaVerif.Ops.C04
 import PyomaVerif.Ops.C13
 import PyomaVerif.Ops.C05
+import PyomaVerif.Ops.MsGather
 /-! Line-protocol driver: one JSON object per line in, one JSON value per line out. -/
 open Lean PV PV.Codec
 
 def allOps : List (String × (Json → Except String Json)) :=
   PV.Ops.C12.ops ++ PV.Ops.C09.ops ++ PV.Ops.C02.ops ++ PV.Ops.C01.ops ++ PV.Ops.C16.ops ++ PV.Ops.C20.ops ++ PV.Ops.C03.ops ++ PV.Ops.C18.ops ++ PV.Ops.C14.ops ++ PV.Ops.C19.ops ++ PV.Ops.C10.ops ++ PV.Ops.C11.ops ++ PV.Ops.C17.ops ++ PV.Ops.C15.ops ++ PV.Ops.C06.ops ++ PV.Ops.C07.ops ++ PV.Ops.C04.ops ++ PV.Ops.C13.ops ++ PV.Ops.C05.ops
+  ++ PV.Ops.MsGather.ops
 
 def handle (line : String) : String :=
   match Json.parse line with
